@@ -1296,7 +1296,7 @@ def corpus():
 def generate(rng, tier):
     big = tier == 'thorough'
     A = ORIGINS[0]
-    k = 1 if not big else 40
+    k = 1 if not big else 28      # thorough stays well under 10 min also on a loaded machine
     # forward: the partial class
     for _ in range(260 * k):
         n = rng.choice([1, 2, 2, 3, 3, 4, 5, 6])
